@@ -5,6 +5,7 @@ search for a failing input."""
 import json, os, subprocess
 
 import vcheck
+import genprops
 
 # fact -> (expected value, the model definition that encodes it)
 EXPECT = {
@@ -48,6 +49,12 @@ def facts(ctx, cfg):
     for name, (want, where) in sorted(EXPECT.items()):
         have = got.get(name, "<function not found>")
         ok = have == want
+        if not ok and genprops.excused(ctx, name):
+            mods = genprops.excused(ctx, name)
+            ctx.obligations.append(("fact " + name, True, "source text changed (now %r); subsumed: the definition regenerated "
+                                    "from the source is proved equal to the model (Gnmi.GenProps.%s)" % (have, ", ".join(mods))))
+            vcheck.log("  fact %s: text changed, subsumed by the discharged obligations of %s (harmless rewrite)" % (name, ", ".join(mods)))
+            continue
         ctx.obligations.append(("fact " + name, ok, where if ok else "expected %r, source has %r" % (want, have)))
         if not ok:
             bad += 1
